@@ -184,7 +184,12 @@ def main():
         with contextlib.redirect_stdout(buf):
             res = fn(**req['args'])
     except Exception:
-        res = dict(failed=False, error='replayer crashed: ' + traceback.format_exc()[-1500:])
+        from vlib.guard import classify
+        in_repo, short, text = classify()
+        if in_repo:
+            res = dict(failed=True, observed='real code raised ' + short, expected='no exception')
+        else:
+            res = dict(failed=False, error='replayer crashed: ' + text)
     print('REPLAY-RESULT ' + json.dumps(res, default=str))
 
 
